@@ -14,7 +14,7 @@ Tokio's paused clock, each case on a fresh thread because MAX_CONN_COUNTER is a 
 """
 import time
 
-from common import run_lines, load_corpus, NCPU, _sample_idx
+from common import run_lines, load_corpus, coq_crosscheck, NCPU, _sample_idx
 from props.c19 import TwoPhase, split_oracle
 
 META = {
@@ -402,6 +402,15 @@ def check_poll(st, ctx):
         "wall_s": round(time.time() - t0, 2),
         "samples": [{"case": cases[k], "impl": impl[k], "model": model[k]} for k in _sample_idx(len(cases), 3, ctx.rng)]})
     ctx.cov["payload_exchanges_ok"] = sum(1 for i in impl for t in i.split(" ") if t.startswith("E") and t.endswith(":1"))
+    # extraction guard: a sample of the model runs is re-evaluated inside Coq (vm_compute) and compared with the OCaml run
+    if not bad:
+        idx = _sample_idx(len(cases), 25 if ctx.tier == "quick" else 200, ctx.rng)
+        eqs = run_lines([ctx.model_bin, "c18coq"], [minp[k] for k in idx], 1, 120, "model")
+        items = [tuple(e.split(" ### ", 1)) for e in eqs if " ### " in e]
+        nok, fails = coq_crosscheck(ctx.pid + "_c18", ("From AN Require Import Model.TlsAccept.", items))
+        ctx.cov["streams"][-1]["coq_crosscheck"] = nok
+        for f in fails:
+            ctx.report("correspondence-broken", {"stream": st.name, "what": f}, nfi=True)
     seen = set()
     for c, i, m in sorted(bad, key=lambda x: len(x[0])):
         k = st.key(c, i, m)
